@@ -525,9 +525,7 @@ MUTANTS = [
                         out << "),symTable.decode(";
                         dispatch(rel.getRHS(), out);
                         out << "),false)";''', 'R2'),
-    ('interpreter-exp-direct-narrowing', ENG,
-     '                    return ramBitCast(static_cast<RamSigned>(static_cast<int64_t>(std::pow(first, second))));',
-     '                    return ramBitCast(static_cast<RamSigned>(std::pow(first, second)));', 'R2'),
+    ('synth-sub-emits-plus', SYN, 'BINARY_OP_NUMERIC(SUB, -)', 'BINARY_OP_NUMERIC(SUB, +)', 'R2'),
     ('wrapper-negates-after-catch', SYN, '(std::regex_match(text, regexCache.getOrCreate(pattern)) != negate); } ',
      'std::regex_match(text, regexCache.getOrCreate(pattern)); } ', 'R2'),
     ('synth-udiv-signed', SYN, 'BINARY_OP_NUMERIC(DIV, /)', 'BINARY_OP_NUMERIC(DIV, /)  /* mutated below */', None),
